@@ -67,6 +67,7 @@ def main():
     ap.add_argument("--repo", default="/repo")
     ap.add_argument("--only")
     ap.add_argument("--all-props", action="store_true")
+    ap.add_argument("--expect-clean", action="store_true", help="the patches are behaviour-preserving: every check must exit 0")
     ap.add_argument("-v", action="store_true")
     args = ap.parse_args()
     items = []
@@ -80,9 +81,14 @@ def main():
     caught = missed = 0
     with ThreadPoolExecutor(8) as ex:
         for sid, prop, code, out, others in ex.map(lambda it: one(it, args, props), items):
-            status = {1: "CAUGHT", 0: "missed", 2: "undecided"}.get(code, str(code))
-            caught += code == 1
-            missed += code != 1
+            if args.expect_clean:
+                status = {1: "FALSE-ALARM", 0: "silent", 2: "undecided"}.get(code, str(code))
+                caught += code == 0
+                missed += code != 0
+            else:
+                status = {1: "CAUGHT", 0: "missed", 2: "undecided"}.get(code, str(code))
+                caught += code == 1
+                missed += code != 1
             first = ""
             for l in out.splitlines():
                 if l.startswith("  C") or l.startswith("ANALYSIS-ERROR"):
@@ -93,7 +99,7 @@ def main():
                 print(out)
             for p, (c, ls) in others.items():
                 print("    also %s exit %d: %s" % (p, c, " | ".join(ls)[:300]))
-    print("caught %d / %d" % (caught, caught + missed))
+    print("%s %d / %d" % ("silent" if args.expect_clean else "caught", caught, caught + missed))
 
 
 if __name__ == "__main__":
